@@ -155,10 +155,6 @@ pub fn poison_thread(seed: u64) {
     // one codec per call keeps the prelude cheap (brotli's encoder set-up dominates otherwise)
     let ic = 1 + (seed % 4) as u8;
     let _ = guard("poison", || {
-        // serialisation refused half-way (length 0 at a later index)
-        let d: Directory = es.clone().into();
-        let mut sink: Vec<u8> = Vec::new();
-        let _ = d.to_writer(&mut sink, comp(ic));
         // serialisation of a valid directory onto a stream whose first write fails
         let mut ok = es.clone();
         ok[bad].length = 9;
@@ -177,6 +173,11 @@ pub fn poison_thread(seed: u64) {
         let mut dead = SimDisk::plain(Vec::new()).fault(crate::disk::Fault::FailStop { at: 1, kind: crate::disk::FKind::Other });
         let _ = pm.to_writer(&mut dead);
         let _ = PMTiles::from_bytes(&b"PMTiles\x03 not really an archive"[..]);
+        // last (so that nothing after it can tidy up): a serialisation that is refused half-way
+        // (length 0 at a later index)
+        let d: Directory = es.clone().into();
+        let mut sink: Vec<u8> = Vec::new();
+        let _ = d.to_writer(&mut sink, comp(ic));
     });
 }
 
